@@ -135,5 +135,7 @@ def register_c12(reg):
         effects_only_if=lambda S, a: a.save_report,
         props={'one_result_per_entry': ['C12'], 'inv:one_per_entry': ['C12'], 'one_per_entry': ['C12'], 'entry_is_single_pair_result': ['C12', 'C15'], 'invalid_entries_kept': ['C12', 'C14'],
                'effects_only_if': ['C17']},
-        loops=[LoopSpec('enumerate(pairs)', inv, elem=elem, body_post=entry_ok, shapes={'new_level': 'unk', 'original_level': 'unk', 'c_tuned': 'unk'})],
+        loops=[LoopSpec('enumerate(pairs)', inv, elem=elem, body_post=entry_ok, shapes={'new_level': 'unk', 'original_level': 'unk', 'c_tuned': 'unk'}, pos=0,
+                        roles={'appended': ['results', 'report_data'],
+                               'local': ['text', 'bg', 'large', 'pair', 'tuned_color', 'success', 'original_level', 'new_level', 'new_pair', 'current_readability', 'c_tuned', 'fg_str', 'bg_str', 'tuned_fg_str']})],
     ))
